@@ -9,7 +9,7 @@ import common as C
 import verde as vd
 
 ID = "C10"
-TRANSLATED = "utils"       # Gen/Utils.lean (variance_to_weights loop body) is regenerated from /repo and bridged to the model in Props/C10.lean
+TRANSLATED = "blockmean"   # Gen/Utils.lean (variance_to_weights loop body) and Gen/BlockMean.lean (BlockMean.filter and its aggregation helpers, pinned) are regenerated from /repo and bridged to the model in Props/C10.lean
 FILES = ["verde/blockreduce.py", "verde/utils.py"]
 RULE = ("corpus + seeded clouds through BlockMean.filter (no weights / weights with uncertainty on or off / uncertainty without weights) with 1..3 "
         "components, single- and many-member blocks, plus variance_to_weights on arrays with zeros, values around the tolerance, NaNs and several "
